@@ -31,4 +31,5 @@ def run(rep):
 
 
 def replay(rep, case):
-    dwtchecks.replay_case(rep, case)
+    from ..replay import rerun
+    rerun(rep, case, run)
